@@ -29,7 +29,7 @@ func (g *pg) datum(d int, sc scope) val.V {
 	case c == 4:
 		return val.N()
 	case c == 5:
-		return val.S(Str(g.t, "dstr", Opts{Str: StrPlain}))
+		return val.S(g.str("dstr"))
 	case c == 6:
 		return val.K("err")
 	case c == 7:
